@@ -42,10 +42,17 @@ class StoreW(OW):
             if r.random() < 0.4:
                 ex.append(A_mechs(K.CKA_ALLOWED_MECHANISMS, r.sample([K.CKM_AES_ECB, K.CKM_AES_CBC, K.CKM_AES_CBC_PAD, K.CKM_AES_CMAC, K.CKM_SHA256_HMAC, K.CKM_SHA_1_HMAC, K.CKM_RSA_PKCS, K.CKM_SHA256_RSA_PKCS, K.CKM_ECDSA, K.CKM_ECDH1_DERIVE, K.CKM_AES_KEY_WRAP,
                                                                       K.CKM_AES_ECB_ENCRYPT_DATA, K.CKM_CONCATENATE_BASE_AND_DATA, K.CKM_CONCATENATE_DATA_AND_BASE, K.CKM_CONCATENATE_BASE_AND_KEY, K.CKM_DES3_ECB, K.CKM_DES3_CBC, K.CKM_DES3_CMAC], r.randint(8, 18))))
+        def tmpl_entries():
+            # any subset of a pool with every stored kind (boolean, unsigned long, byte string incl. empty and long ones) in every position: entries are
+            # stored sorted by type, so WHICH kind comes last (and ends exactly at the end of the nested map) varies
+            pool = [A_bool(K.CKA_EXTRACTABLE, r.random() < 0.5), A_bool(K.CKA_SENSITIVE, r.random() < 0.5), A_bool(K.CKA_ENCRYPT, True), A_ulong(K.CKA_KEY_TYPE, r.choice([K.CKK_AES, K.CKK_GENERIC_SECRET])), A_ulong(K.CKA_VALUE_LEN, r.choice([16, 32])),
+                    A_ulong(K.CKA_CLASS, K.CKO_SECRET_KEY), A_bytes(K.CKA_LABEL, objs.rnd(r, r.choice([0, 1, 3, 20, 300]))), A_bytes(K.CKA_ID, objs.rnd(r, r.choice([0, 6, 64]))), A_bytes(K.CKA_START_DATE, date(r)),
+                    A_bytes(K.CKA_EC_PARAMS, bytes.fromhex(objs.POOL["ec"][0]["params"])), A_bytes(0x80000011, objs.rnd(r, r.choice([1, 8, 100])))]
+            return r.sample(pool, r.randint(1, 5))
         if kind in ("aes", "generic", "des3", "rsa_pub") and r.random() < 0.3:
-            ex.append([K.CKA_WRAP_TEMPLATE, "t", [A_bool(K.CKA_EXTRACTABLE, True), A_bytes(K.CKA_LABEL, objs.rnd(r, r.choice([3, 20]))), A_ulong(K.CKA_KEY_TYPE, K.CKK_AES)][: r.randint(1, 3)]])
+            ex.append([K.CKA_WRAP_TEMPLATE, "t", tmpl_entries()])
         if kind in ("aes", "generic", "des3", "rsa_priv") and r.random() < 0.3:
-            ex.append([K.CKA_UNWRAP_TEMPLATE, "t", [A_bool(K.CKA_SENSITIVE, r.random() < 0.5), A_bytes(K.CKA_ID, objs.rnd(r, 6))][: r.randint(1, 2)]])
+            ex.append([K.CKA_UNWRAP_TEMPLATE, "t", tmpl_entries()])
         if kind == "cert":
             if r.random() < 0.5: ex.append(A_bytes(K.CKA_ISSUER, b"\x30\x09" + objs.rnd(r, 9)))
             if r.random() < 0.5: ex.append(A_bytes(K.CKA_SERIAL_NUMBER, b"\x02\x04" + objs.rnd(r, 4)))
